@@ -154,12 +154,23 @@ def scenario(transport, entry, Targ, pattern, rng=None):
             write(b'MATCH now')
         reads = []
         V.instrument_reads(p, clk, reads)
-        clk.schedule(arrivals_for(pattern, Teff, write, finish))
-        if pattern.endswith('+sig'):
-            clk.interrupts = [clk.now + SIG_EVERY * k + 0.00007 for k in range(1, 200)]
-            clk.handler_cost = SIG_COST
         pat = 'MATCH' if enc else b'MATCH'
         with V.Install(clk, transport, p=p, ctl=ctl):
+            if pattern.endswith('+prior'):
+                # an earlier call on the same object, with a time limit of its own that has long run out when the call under test starts:
+                # every call's deadline is its own
+                clk.horizon = clk.now + 120
+                try:
+                    p.expect_exact('\x00never' if enc else b'\x00never', timeout=0.05)
+                except TIMEOUT:
+                    pass
+                clk.horizon = None
+                clk.sleep(0.3)
+                del reads[:]
+            clk.schedule(arrivals_for(pattern, Teff, write, finish))
+            if pattern.endswith('+sig'):
+                clk.interrupts = [clk.now + SIG_EVERY * k + 0.00007 for k in range(1, 200)]
+                clk.handler_cost = SIG_COST
             start = clk.now
             outcome = None
             clk.horizon = start + (max(Teff, 0) + 120 if Teff is not None else 3600)
@@ -302,7 +313,19 @@ def stage_virtual(ctx, stats, sigs):
             for Ta in (-1, 2.0, 0.7):
                 for pa in MR_PATTERNS:
                     mr_combos.append((tr, en, Ta, pa))
-    corpus = [('fd-select', 'expect', 2.0, 'trickle@1'), ('pty-poll', 'expect_exact', 0.7, 'blocks@4'),
+    prior_combos = []
+    for tr in TRANSPORTS:
+        if tr == 'popen':
+            continue
+        for en in ENTRIES[:4]:
+            for Ta in TS:
+                for pa in ('trickle_then_match', 'match_mid', 'silence', 'burst_after', 'exit_mid', 'trickle'):
+                    if Ta is None and pa in ('silence', 'trickle', 'burst_before'):
+                        continue
+                    prior_combos.append((tr, en, Ta, pa + '+prior'))
+    corpus = [('fd-select', 'expect', None, 'trickle_then_match+prior'), ('pty-poll', 'expect_exact', -1, 'trickle_then_match+prior'),
+              ('socket', 'expect_list', 2.0, 'match_mid+prior'), ('pty-select', 'expect_loop', None, 'exit_mid+prior'),
+              ('fd-select', 'expect', 2.0, 'trickle@1'), ('pty-poll', 'expect_exact', 0.7, 'blocks@4'),
               ('pty-select', 'expect', 0.7, 'u8:partial_char'), ('fd-poll', 'read_nonblocking', 0.7, 'u8:partial_char'), ('fd-select', 'expect_exact', 2.0, 'u8:partial_then_match'),
               ('socket-own', 'expect', None, 'match_mid'), ('socket-own', 'read_nonblocking', None, 'match_mid'), ('socket-own', 'expect_exact', 2.0, 'match_mid'),
               ('pty-select', 'expect', 2.0, 'trickle'), ('socket', 'expect', 0, 'silence'), ('socket', 'expect', 0, 'immediate'),
@@ -311,10 +334,10 @@ def stage_virtual(ctx, stats, sigs):
               ('pty-select', 'expect', -0.5, 'silence'), ('socket', 'expect_exact', -0.5, 'immediate'), ('fd-poll', 'expect_list', -0.5, 'trickle')]
     if ctx.quick():
         rng.shuffle(combos)
-        rng.shuffle(sig_combos); rng.shuffle(u8_combos); rng.shuffle(mr_combos)
-        combos = corpus + combos[:110] + u8_combos[:25] + mr_combos[:25] + [('pty-select', 'expect', 0.7, 'silence+sig'), ('fd-poll', 'expect_exact', 2.0, 'trickle+sig')] + sig_combos[:40]
+        rng.shuffle(sig_combos); rng.shuffle(u8_combos); rng.shuffle(mr_combos); rng.shuffle(prior_combos)
+        combos = corpus + combos[:110] + u8_combos[:25] + mr_combos[:25] + [('pty-select', 'expect', 0.7, 'silence+sig'), ('fd-poll', 'expect_exact', 2.0, 'trickle+sig')] + sig_combos[:40] + prior_combos[:25]
     else:
-        combos = corpus + combos + sig_combos + u8_combos + mr_combos
+        combos = corpus + combos + sig_combos + u8_combos + mr_combos + prior_combos
     results = []
     for (tr, en, Ta, pa) in combos:
         r = scenario(tr, en, Ta, pa, rng)
